@@ -95,7 +95,7 @@ func c05Execute(in c05In) *c05Trace {
 	n := len(in.Progs)
 	tr := &c05Trace{waiterOf: map[int]int{}}
 	var ops *webrtc.VerifOperations
-	s := NewSched()
+	s := NewSched().Only("ops.")
 	s.Grace = 0
 	defer s.Close()
 	// before the next run installs its handler, every goroutine of this run
